@@ -367,6 +367,7 @@ func New(o Opts) *World {
 		// the SQL-like store: hydrates the session prototype and annotates its errors
 		o.Mode.WrapErrors = true
 		o.Mode.RowCount = true
+		o.Mode.TTL = true
 	}
 	w.Store = NewIStore(w.Mem, o.Mode)
 	specs := o.Clients
